@@ -73,3 +73,14 @@ Proof.
 Qed.
 Lemma In_app_single {A} (l : list A) x y : In y (l ++ [x]) <-> In y l \/ y = x.
 Proof. rewrite in_app_iff. cbn. intuition. Qed.
+
+Lemma filter_all_true {A} (f : A -> bool) (l : list A) : (forall x, In x l -> f x = true) -> filter f l = l.
+Proof.
+  induction l as [|a r IH]; cbn; auto. intros H. rewrite (H a) by auto. f_equal. apply IH. auto.
+Qed.
+Lemma filter_filter {A} (f g : A -> bool) (l : list A) : filter f (filter g l) = filter (fun x => f x && g x) l.
+Proof.
+  induction l as [|a r IH]; cbn; auto. destruct (g a); cbn; rewrite ?andb_true_r, ?andb_false_r.
+  - destruct (f a); rewrite IH; auto.
+  - auto.
+Qed.
